@@ -402,3 +402,30 @@ orc_code_region_allocate_codemem (OrcCodeRegion *region)
 }
 #endif
 
+
+#ifdef ORC_VERIF_HOOKS
+/* Verification hook (read-only): report every region and chunk of the code
+ * memory allocator under the global mutex. */
+typedef void (*OrcVerifCodememFunc) (void *user, int region_index,
+    void *write_ptr, void *exec_ptr, int region_size,
+    int chunk_offset, int chunk_size, int chunk_used, void *chunk);
+
+void orc_verif_codemem_walk (OrcVerifCodememFunc func, void *user);
+
+void
+orc_verif_codemem_walk (OrcVerifCodememFunc func, void *user)
+{
+  int i;
+  OrcCodeChunk *chunk;
+
+  orc_global_mutex_lock ();
+  for (i = 0; i < orc_code_n_regions; i++) {
+    OrcCodeRegion *region = orc_code_regions[i];
+    for (chunk = region->chunks; chunk; chunk = chunk->next) {
+      func (user, i, region->write_ptr, region->exec_ptr, region->size,
+          chunk->offset, chunk->size, chunk->used, chunk);
+    }
+  }
+  orc_global_mutex_unlock ();
+}
+#endif
